@@ -85,6 +85,8 @@ def run_actions(exe, actions):
             tag = action[3] if len(action) > 3 else ""
             if tag.startswith("$"):
                 tag = "env=" + str(os.environ.get(tag[1:], "<unset>"))
+            elif tag == "@argv":
+                tag = "argv=" + " ".join(sys.argv[1:])
             contents = []
             for p in srcs:
                 with open(p, "rb") as fh:
